@@ -499,6 +499,85 @@ static void runLinear(const LCase& lc, Ctx& ctx)
   ctx.nontrivial(nCmp > 0 && maxNb >= 2);
 }
 
+// ------------------------------------------------------------------ (e') linear combinations of variables ------
+// kriging(..., matLC = M) estimates the combinations sum_j M[l][j] Z_j: by linearity of the estimator, its estimate equals
+// sum_j M[l][j] estim_j of the plain cokriging of the same case (same neighbourhood, same data), for every kind of kriging
+static LCase genLc()
+{
+  GenOpt o;
+  o.nvarMin = 2;
+  o.heteroPct = 50;
+  o.nMax = 30;
+  LCase c = genL(o);
+  int nv = c.k.nvar, nl = G::i(1, nv);
+  c.coef.clear(); // re-used here as the nl x nvar matrix of the combinations
+  for (int i = 0; i < nl * nv; i++) c.coef.push_back(G::pct(25) ? 0. : G::r(-2, 2, 4));
+  if (c.coef[0] == 0.) c.coef[0] = 1.;
+  if (nl >= 2 && c.coef[(size_t)nv] == 0. && c.coef[(size_t)(nv + 1)] == 0.) c.coef[(size_t)(nv + 1)] = 1.;
+  return c;
+}
+static void runLc(const LCase& lc, Ctx& ctx)
+{
+  const KCase& c = lc.k;
+  labelCase(c, ctx);
+  ctx.sig = signature(c);
+  Problem P;
+  if (!setup(c, P, ctx)) return;
+  int nU, nIll, maxNb;
+  labelStatus(P, ctx, nU, nIll, maxNb);
+  int nv = c.nvar, nt = c.ntarg(), nl = (int)lc.coef.size() / nv;
+  KOut A;
+  if (!krige(c, P, ctx, A, "plain")) return;
+  World w2;
+  if (!buildWorld(c, w2, ctx)) return;
+  MatrixRectangular M(nl, nv);
+  for (int i = 0; i < nl; i++)
+    for (int j = 0; j < nv; j++) M.setValue(i, j, lc.coef[(size_t)(i * nv + j)]);
+  VectorInt nd;
+  for (int v : c.ndisc) nd.push_back(v);
+  ctx.at("kriging-matLC:" + c.variant());
+  int err = kriging(w2.dbin.get(), w2.dbout.get(), w2.model.get(), w2.neigh.get(), c.block ? EKrigOpt::BLOCK : EKrigOpt::POINT, true, true, false,
+                    nd, VectorInt(), &M);
+  if (err != 0) { ctx.fail(c.key("matlc-linear:kriging-error"), "kriging(matLC) returns an error where the plain cokriging succeeds"); return; }
+  int nCmp = 0;
+  bool offDiag = false;
+  for (int i = 0; i < nl; i++)
+  {
+    std::string base = (nl == 1) ? std::string("Kriging.LC") : "Kriging.LC-" + std::to_string(i + 1);
+    if (w2.dbout->getUID(base + ".estim") < 0) { ctx.fail(c.key("matlc-linear:columns"), "kriging(matLC) did not create " + base + ".estim"); return; }
+    VectorDouble E = w2.dbout->getColumn(base + ".estim", false);
+    for (int j = 0; j < nv; j++)
+      if (j != i && lc.coef[(size_t)(i * nv + j)] != 0.) offDiag = true;
+    for (int k = 0; k < nt; k++)
+    {
+      const auto& t = P.T[(size_t)k];
+      if (t.status != 0) continue;
+      double ek = epsK(t.S.kappa, P.eta);
+      LD exp = 0, tol = 0;
+      bool na = false;
+      for (int j = 0; j < nv; j++)
+      {
+        LD m = (LD)lc.coef[(size_t)(i * nv + j)];
+        if (m == 0) continue;
+        double e = A.estim[(size_t)(k * nv + j)];
+        if (isNA(e)) { na = true; break; }
+        exp += m * (LD)e;
+        tol += fabsl(m) * (2 * ((LD)ek * t.S.scaleE[(size_t)j] + floorE(t.S, P.eta)));
+      }
+      if (na) continue;
+      double got = E[(size_t)k];
+      if (isNA(got) || std::isnan(got) || fabsl((LD)got - exp) > tol)
+      {
+        ctx.fail(c.key("matlc-linear:estim"), fmt("target %d combination %d: estim %.15g with matLC, %.15Lg = combination of the plain cokriging estimates (tol %.3Lg, kappa %.3g)", k, i, got, exp, tol, t.S.kappa));
+        return;
+      }
+      nCmp++;
+    }
+  }
+  if (nU == 0 && nIll > 0) ctx.inconclusive("ill-conditioned");
+  ctx.nontrivial(nCmp > 0 && maxNb >= 2 && offDiag);
+}
+
 // ------------------------------------------------------------------ (f) permutation ------
 static KCase permuted(const KCase& c, const std::vector<int>& perm)
 {
@@ -582,6 +661,7 @@ VERIF_SUB(stdev_bounds, LCase, genBounds, runBounds);
 VERIF_SUB(universality, LCase, genUniv, runUniv);
 VERIF_SUB(drift_shift, LCase, genMetaDrift, runShift);
 VERIF_SUB(linearity, LCase, genMeta, runLinear);
+VERIF_SUB(matlc_linear, LCase, genLc, runLc);
 VERIF_SUB(permutation, LCase, genMeta, runPerm);
 VERIF_SUB(translation, LCase, genMeta, runTrans);
 VERIF_MAIN()
